@@ -262,7 +262,7 @@ func Harness_C34_ClearUnread() {
 	zzsym.Assert(s.hides == 0, "ClearUnread hid the conversation")
 	if s.advances == 1 {
 		zzsym.Reach("clear-advanced")
-		zzsym.Assert(s.advancedTo > s.row.ReadSeq, "ClearUnread passed a read cursor that does not advance ReadSeq")
+		zzsym.Assert(s.advancedTo >= s.row.ReadSeq, "ClearUnread passed a read cursor below ReadSeq")
 		zzsym.Assert(s.advancedTo <= s.heads[0].LastCommittedSeq, "ClearUnread marked uncommitted sequences as read")
 	}
 	if err != nil {
@@ -298,7 +298,7 @@ func Harness_C34_SetUnread() {
 	}
 	if s.advances == 1 {
 		zzsym.Reach("set-advanced")
-		zzsym.Assert(s.advancedTo > s.row.ReadSeq, "SetUnread passed a read cursor that does not advance ReadSeq")
+		zzsym.Assert(s.advancedTo >= s.row.ReadSeq, "SetUnread passed a read cursor below ReadSeq")
 	}
 	if err != nil {
 		zzsym.Reach("set-error")
@@ -329,7 +329,7 @@ func Harness_C34_SetUnreadValue() {
 	zzsym.Assert(err == nil, "SetUnread failed on a live membership with working ports")
 	if s.advances == 1 {
 		zzsym.Reach("value-advanced")
-		zzsym.Assert(s.advancedTo > s.row.ReadSeq, "SetUnread passed a read cursor that does not advance ReadSeq (value)")
+		zzsym.Assert(s.advancedTo >= s.row.ReadSeq, "SetUnread passed a read cursor below ReadSeq (value)")
 	} else {
 		zzsym.Reach("value-unchanged")
 	}
